@@ -10,7 +10,7 @@ ConfigsTable == {Table[i] : i \in 1..Len(Table)}
 
 Emit(x) == PrintT(<<"VF", ToJson(x)>>)
 EmitBehaviours == (Record /\ (Terminal \/ Stuck)) =>
-                    Emit([id |-> cfg.id, np |-> NP, niter |-> NI, hist |-> hist,
+                    Emit([cfg |-> cfg, hist |-> hist,
                           outcome |-> IF Terminal THEN pc[0] ELSE "stuck",
                           result |-> [a \in Arrs |-> Result(a)], index |-> index])
 =============================================================================
